@@ -1,6 +1,7 @@
 SPECIFICATION Spec
 CONSTANT Archives <- MCArchives
 CONSTANT MaxCalls = 3
+CONSTANT WriteGuarded = TRUE
 CONSTANT TestZipResets = FALSE
 INVARIANT Restriction
 INVARIANT Repeatable
